@@ -25,6 +25,8 @@ open Infretis.StoreText (Str FIn FVal TFrame LFrameT StoredT storeT loadPathT lo
   loadT <deflim|-> <p|a> <list hexstr files> <hex text|!> <hex text|!> <hex text|!>    ("!" = the file does not exist)
       → "<maxlen|-> <loadedT>";   a loaded float is shown as sign and magnitude ×10⁶ ("+1500000", "-0") or "nan"
   round6 <num> <den> → the magnitude '{:.6f}' prints, ×10⁶
+  stem <hex name> → os.path.splitext(name)[0]
+  wsset → every code point the text model treats as white space (str.isspace / split() / strip()), decimal
   hdr → the three header lines (order, energy, traj) in hex
   move <list hexstr keep-ext> <hex target dir> <maxlen|-> <nfiles> { <hex dir> <hex name> <content> }* <nframes> { <hex dir> <hex base> }*
       PathStorage._move_path on the file-system model
@@ -33,9 +35,11 @@ open Infretis.StoreText (Str FIn FVal TFrame LFrameT StoredT storeT loadPathT lo
       the end-to-end function outputThenLoad → "<maxlen|-> <loaded>" or the error kind
   lpfd <deflim|-> <p|a> <maxlength|-> <restarted 0|1> <list nat active> <narchives> { <pn> <list hexstr files> <file> <file> <file> }*
       load_paths_from_disk → "<pn>:<status>:<maxlen|->:<loaded> ; …" or the error kind
-  hist  <n> <delOld> <delAll> <a|r variant> <list keep-ext> <ninit> { <pn> <list name> }* <nops> { R <pnOld> <list name> <list name> | F | S <pn> <name> | X }*
+  hist  <n> <delOld> <delAll> <a|r variant> <list hexstr keep-ext> <ninit> { <pn> <list name> }* <nops> { R <pnOld> <list name> <list name> | F | S <pn> <name> | X }*
       (X = a restart between two calls: new REPEX_state from restart.toml, paths re-read, pn_olds forgotten)
-      → one state per op, separated by " | "
+      → one state per op, separated by " | ": "<ok|err> live:… olds:… restart:… disk:… txt:<pn>=<name>+<name>;…"
+      (txt = the record of what load/pn/traj.txt refers to, compared with the real traj.txt files)
+  text arguments/results of storeT / loadT are the hex of UTF-8 bytes (non-ASCII names and file contents)
 -/
 
 def showErr : Err → String
@@ -145,9 +149,14 @@ def showDir : DDir → String
 
 def showNats (l : List Nat) : String := ",".intercalate (l.map toString)
 
+/-- the ghost record `St.txt` (what load/pn/traj.txt refers to), first entry per path number: `pn=name+name;…` -/
+def showTxt (s : St) : String :=
+  let pns := (s.txt.map (·.1)).eraseDups
+  ";".intercalate (pns.map (fun pn => s!"{pn}={"+".intercalate ((lookup pn s.txt).getD [])}"))
+
 def showSt (s : St) (e : Option Err) : String :=
   let es := match e with | none => "ok" | some e => showErr e
-  s!"{es} live:{showNats s.live} olds:{showNats (s.pnOlds.map (·.1))} restart:{showNats s.restart} disk:{",".intercalate ((s.disk.map showFile) ++ (s.dirs.map showDir)).eraseDups}"
+  s!"{es} live:{showNats s.live} olds:{showNats (s.pnOlds.map (·.1))} restart:{showNats s.restart} disk:{",".intercalate ((s.disk.map showFile) ++ (s.dirs.map showDir)).eraseDups} txt:{showTxt s}"
 
 /-- states after each op; stops after the first error -/
 def trace : St → List OpR → List String
@@ -167,10 +176,13 @@ def showLoadedPath : Except Err (PathObj LFrame) → String
 
 def fillOf (s : String) : Fill := if s = "a" then .viaAppend else .push
 
-def hexL (l : Str) : String := hexStr (String.ofList l)
+/-- text travels as the hex of its UTF-8 bytes (the files are read with encoding utf-8) -/
+def hexL (l : Str) : String := hexBytes (String.ofList l).toUTF8.toList
 
 def parseFin (s : String) : Option FIn :=
   if s = "n" then some .nan
+  else if s = "+inf" then some (.inf false)
+  else if s = "-inf" then some (.inf true)
   else
     match s.toList with
     | sg :: r =>
@@ -185,7 +197,8 @@ def parseFin (s : String) : Option FIn :=
 def optFin (s : String) : Option (Option FIn) :=
   if s = "-" then some none else (parseFin s).map some
 
-def unhexL (s : String) : Option Str := (unhexStr s).map String.toList
+def unhexL (s : String) : Option Str :=
+  (unhex s).bind (fun bs => (String.fromUTF8? ⟨bs.toArray⟩).map String.toList)
 
 def takeTFrames : Nat → List String → Option (List TFrame × List String)
   | 0, rest => some ([], rest)
@@ -202,6 +215,7 @@ def takeTFrames : Nat → List String → Option (List TFrame × List String)
 def showFVal : FVal → String
   | .dec d => (if d.neg then "-" else "+") ++ toString d.mag
   | .nan => "nan"
+  | .inf neg => if neg then "-inf" else "+inf"
 
 def showOFVal : Option FVal → String
   | some x => showFVal x
@@ -390,7 +404,7 @@ def handle (toks : List String) : String :=
       | none => "bad-op"
     | none => "bad-op"
   | "hist" :: n :: d1 :: d2 :: v :: rest =>
-    match parseNat? n, takeList some' rest with
+    match parseNat? n, takeList unhexStr rest with
     | some n, some (keep, ni :: rest) =>
       match parseNat? ni with
       | some ni =>
@@ -407,7 +421,8 @@ def handle (toks : List String) : String :=
         | _ => "bad-op"
       | none => "bad-op"
     | _, _ => "bad-op"
-  | "stem" :: [x] => stemOf x
+  | "stem" :: [x] => (unhexStr x).elim "bad-op" stemOf
+  | ["wsset"] => " ".intercalate (((List.range 0x110000).filter (fun n => Infretis.StoreText.isWs (Char.ofNat n))).map toString)
   | _ => "bad-op"
 
 def main : IO Unit := mainWith handle
